@@ -86,12 +86,12 @@ Qed.
 
 Lemma atom_eqb_sym a b : atom_eqb a b = atom_eqb b a.
 Proof.
-  destruct a, b; cbn; try reflexivity; try apply fl_eqb_sym; try apply str_eqb_sym.
+  destruct a, b; cbn [atom_eqb atom_num]; try reflexivity; try apply fl_eqb_sym; try apply str_eqb_sym.
 Qed.
 
 Lemma atom_eqb_trans a b c : atom_eqb a b = true -> atom_eqb b c = true -> atom_eqb a c = true.
 Proof.
-  destruct a, b, c; cbn; try discriminate; try (intros; reflexivity);
+  destruct a, b, c; cbn [atom_eqb atom_num]; try discriminate; try (intros; reflexivity);
     try (apply fl_eqb_trans);
     try (intros H1 H2; apply str_eqb_eq in H1, H2; subst; apply str_eqb_refl).
 Qed.
